@@ -1,130 +1,6 @@
 ------------------------------ MODULE Session ------------------------------
-(* Judges one recorded session of a combinator or reducer over instrumented scripted sources
-   (harness/comb) - C07 (documented function, agreement of the three families, laziness, sticky
-   end), C08 (faults surface intact, retries lose nothing), C09 (ownership ledger).
-
-   A record r: fam ("iter" | "stream" | "slice"), comb, n, pred, key, cbfail,
-   script = per source a sequence of steps <<kind, val>> (0 item, 1 transient fault, 2 permanent
-   fault, 3 end), calls = consumer Next calls [ctx, k, e, v, t] (ctx = 1: expired context; k = 0
-   output, 1 End, 2 error; e = error id; v = output as a list; t = source items taken so far),
-   ret = value of a reducer, outs = result of the xslices version, closed, ledger per source. *)
-EXTENDS SeqFuns, TLC, Json
-CONSTANTS CheckFun,     \* judge results, errors, laziness, stickiness (C07, C08)
-          CheckLedger   \* judge the ownership ledger (C09)
-ETran == 1
-EPerm == 2
-ECtx == 3
-ECb == 4
-EMoreThanOne == 5
-EEmpty == 6
-\* items of one script up to (not including) its first permanent fault
-RECURSIVE ItemsOf(_)
-ItemsOf(sc) == IF sc = <<>> \/ Head(sc)[1] \in {2, 3} THEN <<>>
-               ELSE IF Head(sc)[1] = 0 THEN <<Head(sc)[2]>> \o ItemsOf(Tail(sc)) ELSE ItemsOf(Tail(sc))
-HasFail(sc) == \E i \in 1..Len(sc) : sc[i][1] = 2
-NTran(sc) == Cardinality({i \in 1..Len(sc) : sc[i][1] = 1})
-\* sources are consumed one after the other: everything after the first failing source is unreachable
-RECURSIVE Reach(_)
-Reach(scs) == IF scs = <<>> THEN <<>> ELSE IF HasFail(Head(scs)) THEN <<Head(scs)>> ELSE <<Head(scs)>> \o Reach(Tail(scs))
-Items(r) == LET rs == Reach(r.script) IN [i \in 1..Len(rs) |-> ItemsOf(rs[i])]
-AllItems(r) == [i \in 1..Len(r.script) |-> ItemsOf(r.script[i])]
-Fails(r) == \E i \in 1..Len(r.script) : HasFail(r.script[i])
-Trans(r) == LET RECURSIVE F(_) F(i) == IF i > Len(r.script) THEN 0 ELSE NTran(r.script[i]) + F(i + 1) IN F(1)
-Pred(r) == [v \in 1..3 |-> r.pred[v]]
-Key(r) == [v \in 1..3 |-> r.key[v]]
-O(r) == Out(r.comb, Items(r), r.n, Pred(r), Key(r))
-IsReducer(r) == r.comb \in {"Collect", "Last", "Reduce", "Equal", "One", "SampleStream"}
-NoPanic(r) == r.panic = ""
-
-\* number of successful outcomes (outputs and Ends) among the first i calls
-Succ(r, i) == Cardinality({c \in 1..i : r.calls[c].k \in {0, 1}})
-NOut(r, i) == Cardinality({c \in 1..i : r.calls[c].k = 0})
-\* Needs(r, o)[c + 1] = items needed for the outcomes of the first c calls (o = O(r), computed once)
-Needs(r, o) == LET its == Items(r) IN
-               [c1 \in 1..(Len(o) + 2) |->
-                  IF c1 = 1 THEN 0
-                  ELSE IF c1 - 1 <= Len(o) THEN NeedOut(r.comb, its, r.n, Pred(r), Key(r), c1 - 1)
-                  ELSE NeedEnd(r.comb, its, r.n, Pred(r), Key(r))]
-LazyExempt(r) == r.comb \in {"FromIterator", "FlattenSlices", "Chan"}    \* their sources are collected up front by the harness
-
-\* the end of the output is determined by the items before the permanent fault alone
-\* (First has delivered its n items; While has seen an item that fails its predicate)
-EndDetermined(r) ==
-  LET s == IF Len(Items(r)) >= 1 THEN Items(r)[1] ELSE <<>> IN
-  \/ r.comb = "First" /\ r.n <= Len(s)
-  \/ r.comb = "While" /\ WhileLen(s, Pred(r)) < Len(s)
-  \/ r.comb \in {"Counter", "Repeat", "Empty"}
-
-\* ---- one consumer call, given everything before it
-CallOK(r, i, o, needs, fails, trans, lazyexempt, enddet) ==
-  LET c == r.calls[i]
-      j == NOut(r, i - 1)
-      ended == \E d \in 1..(i - 1) : r.calls[d].k = 1
-      failed == \E d \in 1..(i - 1) : r.calls[d].k = 2 /\ r.calls[d].e = EPerm
-      ntran == Cardinality({d \in 1..(i - 1) : r.calls[d].k = 2 /\ r.calls[d].e = ETran})
-  IN
-  /\ \/ /\ c.k = 0 /\ ~ended /\ ~failed                     \* an output: the next one of the fault-free sequence
-        /\ j < Len(o) /\ c.v = o[j + 1]
-     \/ /\ c.k = 1                                          \* End: no permanent fault, everything delivered
-        /\ (~fails \/ enddet) /\ j = Len(o) /\ r.cbfired = 0
-     \/ /\ c.k = 2 /\ c.e = ECtx /\ c.ctx = 1               \* the caller's own expired context
-     \/ /\ c.k = 2 /\ c.e = ETran /\ ntran < trans /\ ~ended
-     \/ /\ c.k = 2 /\ c.e = EPerm /\ fails                  \* the source's error itself
-     \/ /\ c.k = 2 /\ c.e = ECb /\ r.cbfired = 1
-  \* sticky: after End only End (or the caller's own context error)
-  /\ (ended => (c.k = 1 \/ (c.k = 2 /\ c.e = ECtx /\ c.ctx = 1)))
-  \* after the permanent error only that error again
-  /\ (failed => (c.k = 2 /\ c.e \in {EPerm, ECtx}))
-  \* laziness
-  /\ (lazyexempt \/ c.t <= needs[Min(Len(needs), Succ(r, i) + (IF c.k = 2 THEN 1 ELSE 0) + 1)])
-
-\* ---- ownership ledger (C09)
-LedgerOK(r) ==
-  \A s \in 1..Len(r.ledger) :
-    LET g == r.ledger[s] IN
-    /\ g.closes <= 1 /\ g.nac = 0 /\ g.overlap = 0
-    /\ (r.fam = "stream" /\ r.closed = 1 =>
-          IF r.comb = "Flatten" THEN (g.calls > 0 => g.closes = 1)     \* inner streams obtained on the way
-          ELSE IF r.comb \in {"FlattenSlices", "FromIterator", "Chan", "Empty"} THEN TRUE  \* sources are iterators here
-          ELSE g.closes = 1)
-
-\* ---- reducers
-\* kind of the first fault of a script (0 = none) and the items in front of it
-RECURSIVE FirstFault(_)
-FirstFault(sc) == IF sc = <<>> \/ Head(sc)[1] = 3 THEN 0 ELSE IF Head(sc)[1] \in {1, 2} THEN Head(sc)[1] ELSE FirstFault(Tail(sc))
-RECURSIVE Before(_)
-Before(sc) == IF sc = <<>> \/ Head(sc)[1] # 0 THEN <<>> ELSE <<Head(sc)[2]>> \o Before(Tail(sc))
-RetOK(r) ==
-  LET c == r.ret  its == AllItems(r)
-      ff == IF Len(r.script) >= 1 THEN FirstFault(r.script[1]) ELSE 0
-      pre == IF Len(r.script) >= 1 THEN Before(r.script[1]) ELSE <<>> IN
-  IF r.fam = "iter" THEN c.k = 0 /\ c.v = Red(r.comb, its, r.n)
-  ELSE
-  \/ /\ c.k = 2 /\ c.e = ECtx /\ c.ctx = 1                      \* the caller's own expired context
-  \/ /\ r.cbfired = 1 /\ c.k = 2 /\ c.e = ECb                   \* the callback's error itself
-  \/ /\ r.cbfired = 0
-     /\ IF r.comb = "One"
-        THEN IF Len(pre) >= 2 THEN c.k = 2 /\ c.e = EMoreThanOne    \* decided before any fault is reached
-             ELSE IF ff # 0 THEN c.k = 2 /\ c.e = ff
-             ELSE IF Len(pre) = 1 THEN c.k = 0 /\ c.v = pre
-             ELSE c.k = 2 /\ c.e = EEmpty
-        ELSE IF ff # 0 THEN c.k = 2 /\ c.e = ff                    \* the first fault met, itself
-        ELSE IF r.comb = "SampleStream"
-        THEN c.k = 0 /\ Len(c.v) = Min(Max(r.n, 0), Len(its[1])) /\ \A x \in 1..Len(c.v) : \E y \in 1..Len(its[1]) : its[1][y] = c.v[x]
-        ELSE c.k = 0 /\ c.v = Red(r.comb, its, r.n)
-
-SessionOK(r) ==
-  /\ NoPanic(r)
-  /\ ~CheckFun \/ IF r.fam = "slice" THEN r.outs = Out(r.comb, AllItems(r), r.n, Pred(r), Key(r))
-     ELSE IF IsReducer(r) THEN "ret" \in DOMAIN r /\ RetOK(r)
-     ELSE LET o == O(r)
-              \* a record is built eagerly: everything that does not depend on the call index is computed once
-              pre == [o |-> o, needs |-> Needs(r, o), fails |-> Fails(r), trans |-> Trans(r), ex |-> LazyExempt(r), ed |-> EndDetermined(r)]
-          IN /\ \A i \in 1..Len(r.calls) : CallOK(r, i, pre.o, pre.needs, pre.fails, pre.trans, pre.ex, pre.ed)
-             \* a callback failure is reported: the session ends with the callback's error
-             /\ (r.cbfired = 1 => Len(r.calls) > 0 /\ r.calls[Len(r.calls)].k = 2 /\ r.calls[Len(r.calls)].e = ECb)
-  /\ (CheckLedger => LedgerOK(r))
-
+(* Trace driver for SessionRules: one recorded session per line of trace.ndjson (harness/comb). *)
+EXTENDS SessionRules, Json
 \* ---- trace validation driver: one record per line
 VARIABLE l
 Trace == ndJsonDeserialize("trace.ndjson")
